@@ -55,7 +55,11 @@ def fresh_like(I, v, base='hv'):
 
 class LoopSpec:
     def __init__(self, modifies, invariant, decreases=None, props=(), typed_locals=None, name='loop', entry_ghost=None, defines=None,
-                 split_facts=None):
+                 split_facts=None, drain=None):
+        # drain: 'self.<field>' of a list/deque that the loop empties from the left (`while q: x = q.popleft(); ...`); the loop
+        # is then treated in prefix form over the content S of q at loop entry: invariants may use _P (already taken), _R (still
+        # in q) and _S; the rule itself adds the invariant  list(q) == _R
+        self.drain = drain
         # split_facts: callables (I, fr, P, m, R) -> [formula]: instances of universally quantified preconditions of the
         # contract ("for every split S == P ++ [m] ++ R ...") at the split the step case introduces (forall-elimination done
         # here instead of by the solver; each user names the quantified precondition it instantiates)
@@ -204,7 +208,54 @@ class LoopSpec:
                 v = VSeq(t, k)
             I.st.ghost[name] = v
 
+    def run_drain(self, I, node, fr):
+        obj = fr.locals['self']
+        q = I.get_attr(obj, self.drain[5:], fr)
+        t, k = I.seq_term(q)
+        S = VSeq(t, k)
+        E = VSeq(z3.Empty(t.sort()), k)
+        self._type_locals(I, fr)
+        self._capture_entry(I, fr)
+        inv_q = ('drained_list_is_what_remains', 'list(%s) == _R' % self.drain)
+        saved = self.invariant
+        self.invariant = [inv_q] + list(saved)
+        try:
+            which = I.choose(3, 'loop_%s' % self.name)
+            if which == 0:
+                self._check(I, fr, {'_P': E, '_S': S, '_R': S}, 'base')
+                raise PathEnd()
+            if which == 1:
+                self.havoc(I, fr)
+                P = z3.Const(sym.fresh_name('P'), t.sort())
+                m = z3.Const(sym.fresh_name('m'), k.sort)
+                R = z3.Const(sym.fresh_name('R'), t.sort())
+                I.st.assume(t == z3.Concat(P, z3.Unit(m), R))
+                cur = I.get_attr(obj, self.drain[5:], fr)
+                I.st.set_list_term(cur.loc, z3.Concat(z3.Unit(m), R))
+                self._assume(I, fr, {'_P': VSeq(P, k), '_S': S, '_R': VSeq(z3.Concat(z3.Unit(m), R), k)})
+                if not I.branch(I.truth(I.eval(node.test, fr))):
+                    raise PathEnd()
+                try:
+                    I.exec_block(node.body, fr)
+                except ContinueSignal:
+                    pass
+                except BreakSignal:
+                    return
+                self._check(I, fr, {'_P': VSeq(z3.Concat(P, z3.Unit(m)), k), '_S': S, '_R': VSeq(R, k)}, 'step')
+                raise PathEnd()
+            self.havoc(I, fr)
+            cur = I.get_attr(obj, self.drain[5:], fr)
+            I.st.set_list_term(cur.loc, z3.Empty(t.sort()))
+            self._assume(I, fr, {'_P': S, '_S': S, '_R': E})
+            if I.branch(I.truth(I.eval(node.test, fr))):
+                raise PathEnd()
+            I.exec_block(node.orelse, fr)
+        finally:
+            self.invariant = saved
+
     def run_while(self, I, node, fr):
+        if self.drain:
+            return self.run_drain(I, node, fr)
         self._type_locals(I, fr)
         self._capture_entry(I, fr)
         which = I.choose(3, 'loop_%s' % self.name)
